@@ -307,9 +307,50 @@ def cart_to_sph(chk):
               z3.And(r * s1 * ct == x, r * s1 * st_ == y, r * u == z), func=fq, meta={"replay": rep})
 
 
+def solid(chk):
+    """solid_harmonics = sqrt(4 pi / (2l+1)) r^l Y_row for every row of degree l (rows l^2 .. (l+1)^2 - 1); harmonics by contract."""
+    eng = chk.eng
+    fq = f"{MOD}.solid_harmonics"
+    SP = z3.Function("sph_point", IS, IS, RS)
+    k0 = z3.Int("k0")
+    rep = {"what": "solid"}
+
+    def thunk(eng_):
+        eng_.assume(z3.And(LMAX >= 0, NPT >= 1, p0 >= 0, p0 < NPT, l0 >= 0, l0 <= LMAX, k0 >= 0, k0 <= 2 * l0))
+        eng_.callee_contracts[FQ] = lambda e, f, a, k: I.Arr(((T.zi(a[0]) + 1) * (T.zi(a[0]) + 1), NPT), lambda row, p: YROW(T.zi(row), T.zi(p)), "real")
+        eng_.generic_segments = [(l0, k0)]
+        eng_.ghost_offsets = [lambda s_: T.zi(s_) * T.zi(s_)]          # degree l starts at row l^2
+        try:
+            pts = I.Arr((NPT, 3), lambda p, c: SP(T.zi(p), T.zi(c)), "real")
+            out = eng_.call(eng_.get_function(MOD, "solid_harmonics"), [LMAX, pts])
+            return out
+        finally:
+            eng_.callee_contracts.pop(FQ, None)
+            eng_.generic_segments = []
+            eng_.ghost_offsets = []
+    outs = chk.explore("solid_harmonics", thunk, func=fq)
+    rets = [o for o in outs if o.kind == "return"]
+    chk.add("solid_harmonics/post/returns-on-every-path", [], z3.BoolVal(bool(rets) and len(rets) == len(outs)), func=fq,
+            meta={"replay": rep, "paths": str([(o.kind, o.exc, o.note) for o in outs])})
+    for oi, o in enumerate(rets):
+        out = o.value
+        hy = list(o.pc)
+        asm = list(o.assumptions)
+        chk.add_from_path(f"solid_harmonics/path{oi}", o, func=fq, meta={"replay": rep})
+        row = l0 * l0 + k0
+        lr = z3.ToReal(l0)
+        want = YROW(row, p0) * T.zr(T.power(SP(p0, 0), lr)) * T.zr(T.apply_uf("sqrt", 4 * T.PI / (2 * lr + 1)))
+        steps = [("rows-of-degree-l0-below-the-next-square", z3.And(row < (l0 + 1) * (l0 + 1), (l0 + 1) * (l0 + 1) <= (LMAX + 1) * (LMAX + 1)))]
+        chk.chain("solid_harmonics/post/row-of-degree-l-is-sqrt(4pi/(2l+1))-r^l-times-the-harmonic", hy + asm, steps,
+                  z3.And(z3.BoolVal(out.ndim == 2), T.zi(out.shape[0]) == (LMAX + 1) * (LMAX + 1), T.zi(out.shape[1]) == NPT, T.zr(out.fn(row, p0)) == want), func=fq,
+                  meta={"replay": rep})
+        chk.canary("solid_harmonics", hy)
+
+
 def build(chk):
     recursion(chk)
     cart_to_sph(chk)
+    solid(chk)
 
 
 def main(tier="quick", seed=0, bounded=True, proof=True):
